@@ -14,7 +14,8 @@ Record QInv (s : state) : Prop := {
   f_log : forall id h, In (id, h) (refunds s) ->
       exists p, get id (pools s) = Some p /\ p_closed p = PRefunded /\ p_end p = h;
   f_log_nodup : NoDup (map fst (refunds s));
-  f_refunded : forall id p, get id (pools s) = Some p -> p_closed p = PRefunded -> In (id, p_end p) (refunds s)
+  f_refunded : forall id p, get id (pools s) = Some p -> p_closed p = PRefunded -> In (id, p_end p) (refunds s);
+  f_keys : NoDup (keys (pools s))
 }.
 
 Lemma QInv_init h0 : QInv (init h0).
@@ -41,7 +42,7 @@ Proof.
   destruct (st <? height s) eqn:E1; [exact Q|]. destruct (sp <? 1) eqn:E2; [exact Q|].
   destruct r; try exact Q. simpl.
   apply Z.ltb_ge in E1. apply Z.ltb_ge in E2.
-  destruct Q as [Qn Qe Qo Qf Qs Qc Ql Qln Qr].
+  destruct Q as [Qn Qe Qo Qf Qs Qc Ql Qln Qr Qk].
   assert (get (seq s + 1) (pools s) = None) as Hnone.
   { destruct (get (seq s + 1) (pools s)) as [p|] eqn:Hg; [|reflexivity]. specialize (Qs _ _ Hg). lia. }
   set (id := seq s + 1) in *.
@@ -63,6 +64,7 @@ Proof.
   - exact Qln.
   - intros id' p. rewrite get_set_cases. case_id id' id; [|apply Qr].
     intros Hp Hc. inversion Hp; subst; simpl in Hc. discriminate.
+  - apply keys_set_NoDup. exact Qk.
 Qed.
 
 Lemma adjust_inv s id sd av r : 0 <= av -> QInv s -> QInv (fst (adjust s id sd av r)).
@@ -75,7 +77,7 @@ Proof.
   { unfold st. destruct (p_start p <=? height s) eqn:E; [lia|]. apply Z.leb_gt in E. lia. }
   destruct (st + av =? p_end p) eqn:Ee; [exact Q|]. simpl.
   pose proof (not_expired_open s id p Q Hg Hex) as Hopen.
-  destruct Q as [Qn Qe Qo Qf Qs Qc Ql Qln Qr].
+  destruct Q as [Qn Qe Qo Qf Qs Qc Ql Qln Qr Qk].
   constructor; simpl.
   - apply NoDup_enq. apply NoDup_deq. exact Qn.
   - intros h id' Hin. apply In_enq in Hin. rewrite get_set_cases. destruct Hin as [Heq|Hin].
@@ -97,6 +99,7 @@ Proof.
   - exact Qln.
   - intros id' p'. rewrite get_set_cases. case_id id' id; [|apply Qr].
     intros Hp Hc. inversion Hp; subst; simpl in Hc. congruence.
+  - apply keys_set_NoDup. exact Qk.
 Qed.
 
 (** [Refund] of a queued pool *)
@@ -108,7 +111,7 @@ Lemma close_pool_inv s id p how :
 Proof.
   intros Q Hg Hopen Hhow Hstuck. split; [|split; reflexivity].
   pose proof (f_future s Q _ _ (f_open s Q _ _ Hg Hopen)) as Hge.
-  destruct Q as [Qn Qe Qo Qf Qs Qc Ql Qln Qr].
+  destruct Q as [Qn Qe Qo Qf Qs Qc Ql Qln Qr Qk].
   assert (~ In id (map fst (refunds s))) as Hnolog.
   { intros Hi. apply in_map_iff in Hi. destruct Hi as ([i h] & Hf & Hi). simpl in Hf. subst i.
     destruct (Ql _ _ Hi) as (p' & Hg' & Hc' & _). congruence. }
@@ -138,6 +141,7 @@ Proof.
       simpl. apply in_app_iff. right. left. reflexivity.
     + intros Hg' Hc'. specialize (Qr _ _ Hg' Hc'). destruct how; try exact Qr.
       apply in_app_iff. left. exact Qr.
+  - apply keys_set_NoDup. exact Qk.
 Qed.
 
 Lemma destroy_inv s id sd r : QInv s -> QInv (fst (destroy s id sd r)).
@@ -199,7 +203,7 @@ Proof.
   - intros id Hin. apply in_map_iff in Hin. destruct Hin as ([h i] & Hf & Hin). simpl in Hf. subst i.
     apply In_due in Hin. simpl in *. destruct Hin as [-> Hin]. exact Hin.
   - set (s' := fold_left (expire_one f1 f2) (map snd (due (height s) (fq s))) s) in *.
-    destruct Q' as [Qn Qe Qo Qf Qs Qc Ql Qln Qr].
+    destruct Q' as [Qn Qe Qo Qf Qs Qc Ql Qln Qr Qk].
     constructor; simpl; auto.
     + intros h id Hin. pose proof (Qf _ _ Hin) as Hle. rewrite Hh in Hle.
       assert (h <> height s); [|lia]. intros ->.
